@@ -59,7 +59,7 @@ impl Prop for C17 {
         tier.pick(60_000, 1_500_000)
     }
     fn watchdog_ms(&self) -> u64 {
-        4_000
+        10_000
     }
     fn decode(&self, choices: &[u32], tier: Tier) -> Value {
         let mut ch = Choices::new(choices);
@@ -379,8 +379,11 @@ impl Prop for C17 {
                 }
             };
             let mut all = vec![ms];
-            // min_sentences enumerates a cross product: keep it to small grammars
-            if ag.nprods() <= 10 {
+            // min_sentences enumerates a cross product of all cheapest derivations: keep it to
+            // small grammars with short minimal sentences, and bound the oracle's own work
+            let unit = vec![1u8; ag.tokens.len()];
+            let min_len = analyses::min_costs(ag, &unit)[r];
+            if ag.nprods() <= 10 && min_len <= 8 {
                 match catch(|| sg.min_sentences(*ridx)) {
                     Ok(m) => {
                         if m.is_empty() {
@@ -395,7 +398,11 @@ impl Prop for C17 {
                     }
                 }
             }
-            for s in all {
+            for s in all.into_iter().take(40) {
+                if s.len() > 40 {
+                    o.class("minimal-sentence-too-long-for-oracle");
+                    continue;
+                }
                 let toks: Vec<usize> = s.iter().map(|t| tok_cost(*t).0).collect();
                 let c: u64 = s.iter().map(|t| tok_cost(*t).1).sum();
                 if toks.contains(&usize::MAX) || !earley.derives(r, &toks) {
